@@ -4,6 +4,7 @@
   Model: EEM.Model.Resample (hand model, tied to the data classes by ./check C08).
 -/
 import EEM.Model.Resample
+import EEM.Gen.Thresholds
 import Mathlib.Tactic.Linarith
 import Mathlib.Tactic.FieldSimp
 import Mathlib.Tactic.Ring
@@ -267,5 +268,35 @@ theorem C08_fully_covered_day (rs : List (Int × Option Rat)) (hne : rs ≠ []) 
 example : ((days ((List.range 31).map fun i => (i : Int) * 1440)).map
     fun d => share ⟨0, 43200, some 300⟩ d.1 d.2).sum = 300 := by
   decide +kernel
+
+/-! ### T1: the row rules regenerated from the source -/
+open EEM.Gen.Thresholds
+
+/-- **the source's off-cycle rule is the model's**: the masks `clean_billing_data` applies to the period lengths
+(regenerated from the source: `EEM.Gen.Thresholds`) keep exactly the periods `offCycle` does not reject, and the
+off-cycle warning is issued for exactly the rejected ones — for every length -/
+theorem C08_src_offcycle (d : Int) :
+    keepMonthly (d : Rat) = !offCycle .monthly d ∧ keepBimonthly (d : Rat) = !offCycle .bimonthly d ∧
+    warnMonthly (d : Rat) = offCycle .monthly d ∧ warnBimonthly (d : Rat) = offCycle .bimonthly d := by
+  have e35 : ((d : Rat) ≤ 35) ↔ d ≤ 35 := by exact_mod_cast Iff.rfl
+  have e70 : ((d : Rat) ≤ 70) ↔ d ≤ 70 := by exact_mod_cast Iff.rfl
+  have e25 : ((d : Rat) ≥ 25) ↔ d ≥ 25 := by exact_mod_cast Iff.rfl
+  have g35 : ((d : Rat) > 35) ↔ d > 35 := by exact_mod_cast Iff.rfl
+  have g70 : ((d : Rat) > 70) ↔ d > 70 := by exact_mod_cast Iff.rfl
+  have l25 : ((d : Rat) < 25) ↔ d < 25 := by exact_mod_cast Iff.rfl
+  simp only [keepMonthly, keepBimonthly, warnMonthly, warnBimonthly, offCycle, Cycle.maxDays, e35, e70, e25, g35, g70, l25]
+  refine ⟨?_, ?_, ?_, ?_⟩ <;> rw [Bool.eq_iff_iff] <;> simp <;> omega
+
+/-- **the source's 50 % rule and 1/coverage scaling are the model's** (`downsample_and_clean_daily_data`) -/
+theorem C08_src_half_rule (ps : List Period) (d0 d1 : Int) :
+    downsampleDay ps d0 d1 =
+      if dayKept (coverage ps d0 d1) then some (dayScaled (daySum ps d0 d1) (coverage ps d0 d1)) else none := by
+  unfold downsampleDay dayKept dayScaled
+  simp
+
+/-- a day is reported as under-covered exactly when it is dropped -/
+theorem C08_src_warned_iff_dropped (c : Rat) : dayWarn c = !dayKept c := by
+  unfold dayWarn dayKept
+  rw [Bool.eq_iff_iff]; simp
 
 end EEM.Props.C08
